@@ -23,6 +23,10 @@ pub struct C10Sc {
     pub second_seed: u64,
     /// the client presents the session cookie it stored (if any) on the second connection
     pub present_session: bool,
+    /// the second connection is handled under another configured expiry (a restart with a changed
+    /// configuration, or another instance sharing the secret)
+    #[serde(default)]
+    pub second_expiry: Option<u64>,
 }
 
 fn generate(rng: &mut Rng) -> C10Sc {
@@ -31,13 +35,18 @@ fn generate(rng: &mut Rng) -> C10Sc {
         1 => Some(vec![]),
         2 => Some(rng.bytes(1)),
         3 => Some(rng.bytes(200)),
+        // around one HMAC block
+        4 => {
+            let n = *rng.pick(&[63usize, 64, 65, 128]);
+            Some(rng.bytes(n))
+        }
         _ => Some(rng.bytes(32)),
     };
     let expiry = *rng.pick(&[0u64, 1, 60, 21_600, 21_600, u64::MAX]);
     let intent = if rng.chance(1, 2) { 2 } else { 3 };
     let mut client = ClientSpec::base(rng, intent);
     client.name = gen_name(rng);
-    client.host = (*rng.pick(&["mc.example.org", "", "play.example.net", "xn--mnchen-3ya.example"])).to_string();
+    client.host = (*rng.pick(&["mc.example.org", "", "play.example.net", "xn--mnchen-3ya.example", "play.example.org\0FML3\0", "mc.example.org."])).to_string();
     client.port = *rng.pick(&[25565u16, 0, 65535, 1]);
     // a prior session cookie may already exist
     if rng.chance(1, 3) {
@@ -84,6 +93,7 @@ fn generate(rng: &mut Rng) -> C10Sc {
         second_port_xor: if rng.chance(1, 2) { 0 } else { 1 + rng.below(1000) as u16 },
         second_seed: rng.next_u64(),
         present_session: rng.chance(3, 4),
+        second_expiry: if rng.chance(1, 5) { Some(*rng.pick(&[0u64, 1, 60, 3600, u64::MAX])) } else { None },
     };
     zero_time_noise(rng, &mut first);
     sc.first = first;
@@ -105,6 +115,9 @@ fn second_of(sc: &C10Sc, o1: &ConnOutcome) -> ConnScenario {
     s.cfg.client_addr = SocketAddr::new(a.ip(), a.port() ^ sc.second_port_xor).to_string();
     s.client.intent = 3;
     s.client.rng ^= 0x1234;
+    if let Some(e) = sc.second_expiry {
+        s.cfg.expiry = Some(e);
+    }
     s.client.auth_cookie = o1.view.stored_bytes(AUTH_KEY);
     s.client.session_cookie = if sc.present_session {
         o1.view.stored_bytes(SESSION_KEY).or(sc.first.client.session_cookie.clone())
@@ -201,6 +214,8 @@ pub fn check(sc: &C10Sc, o1: &ConnOutcome, s2: &ConnScenario, o2: &ConnOutcome, 
         }
         (None, None) => {}
     }
+    check_service_addresses(f, o1, rep);
+    check_service_addresses(s2, o2, rep);
     let sid1 = check_session(f, o1, rep, "first");
     let sid2 = check_session(s2, o2, rep, "second");
     if let (Some(a), Some(b)) = (&sid1, &sid2)
@@ -210,7 +225,7 @@ pub fn check(sc: &C10Sc, o1: &ConnOutcome, s2: &ConnScenario, o2: &ConnOutcome, 
     }
     // second connection: same IP, Transfer intent; within expiry => accepted without re-authentication
     if f.cfg.secret.is_some() && issued.is_some() {
-        let expiry = f.cfg.expiry.unwrap_or(21_600);
+        let expiry = s2.cfg.expiry.unwrap_or(21_600);
         let issued_ts = issued.as_ref().and_then(|c| parse_cookie_body(&c[32.min(c.len())..])).map(|p| p.timestamp);
         let t2 = o2.view.sent.iter().filter(|s| s.kind == "CookieResponse").nth(1).map(|s| s.t_ns).unwrap_or(0);
         let now2 = s2.wall.at(t2);
@@ -230,6 +245,12 @@ pub fn check(sc: &C10Sc, o1: &ConnOutcome, s2: &ConnScenario, o2: &ConnOutcome, 
                 rep.violate("same_identity_next_time", format!("second connection logged in as {n} / {u:032x}, first as {} / {:032x}", id.name, id.uuid));
             }
             *rep.probes.entry("second_connection_within_expiry".into()).or_insert(0) += 1;
+        } else if issued_ts.is_some() {
+            // older than the expiry the second connection is handled under: the player authenticates again
+            let flag = o2.view.first("EncryptionRequest").map(|p| p.fields["should_authenticate"].clone());
+            if flag == Some(json!(0)) {
+                rep.violate("expired_cookie_refused_next_time", format!("cookie issued at {:?}, presented at {now2} under expiry {expiry}, but authentication was skipped", issued_ts));
+            }
         }
     }
 }
